@@ -217,6 +217,25 @@ func modeC13(cutsFile string, thorough bool) {
 			runStream(in, lst, 50, nil, "random", fast, rng, 100)
 		}
 	}
+	// connections that die inside a frame (inside the length prefix, inside the body) leave nothing behind: the
+	// connections that come after them start at a frame boundary
+	for _, lst := range lsts {
+		w := mkq(uniq() + ".r0t60d0.fr.test.").wire()
+		f := make([]byte, 2+len(w))
+		binary.BigEndian.PutUint16(f, uint16(len(w)))
+		copy(f[2:], w)
+		for _, cut := range []int{1, 9, len(f) - 1} {
+			if c, err := streamConn(in, lst); err == nil {
+				c.Write(f[:cut])
+				time.Sleep(15 * time.Millisecond)
+				c.Close()
+			}
+			time.Sleep(15 * time.Millisecond)
+			for k := 0; k < 3; k++ {
+				runStream(in, lst, 1+k, nil, "one", fast, rng, 100)
+			}
+		}
+	}
 	// many pipelined queries whose upstream answers arrive at the same instant: the handlers of one connection
 	// finish together, and still every response is one contiguous frame (several connections at once)
 	same := func(i int) string { return "r0t60d0" }
